@@ -118,7 +118,14 @@ class Adapter:
         elif k == "PC":
             it.size[0] += 1.0
         else:
-            it.camera_viewport.origin[0] += 1
+            try:
+                it.camera_viewport.origin[0] += 1
+            except ValueError:
+                # decoded viewport vectors are read-only arrays: the client edits by assigning a new vector to the
+                # viewport object's attribute instead
+                vp = it.camera_viewport
+                vp.origin = np.array([int(vp.origin[0]) + 1, int(vp.origin[1])], dtype="<i4")
+                vp.size = np.array([int(vp.size[0]) + 3, int(vp.size[1])], dtype="<i4")
 
     def template(self, kcount):
         """bytes of a block with kcount items (the second one wholly missing where the kind has gap coding)"""
